@@ -92,6 +92,19 @@ Theorem C33_second_pass_matches_first_pass_commitments : forall permitted proof_
 Proof. exact hs_commitments_match. Qed.
 Print Assumptions C33_second_pass_matches_first_pass_commitments.
 
+(* Soundness of the executable commitment predicate evaluated on the implementation's answers by
+   the violation search ([holds_commitments], model/HeadersSync.v: whenever the sync is reported to go
+   on in REDOWNLOAD, the commitment bits of all re-downloaded headers accepted so far are a prefix
+   of the bits committed in the first pass: same bit at each commitment height, and no
+   re-downloaded commitment height without a first-pass commitment): it holds on what the model
+   itself reports (success, state after the call) for every history, so a failing predicate is a
+   violation of the previous theorem. *)
+Theorem C33_holds_commitments_sound : forall permitted proof_of p,
+  0 <= p_max_commitments p -> 0 <= p_buffer p ->
+  forall calls, holds_commitments p calls (model_outs permitted proof_of p (hs_init p) calls) = true.
+Proof. exact hs_holds_commitments_sound. Qed.
+Print Assumptions C33_holds_commitments_sound.
+
 (* non-vacuity: period 1, buffer 2, minimum work = 5 headers at the pow limit; an honest peer
    serves 6 headers twice: nothing in the first pass, then headers 1,2 and finally 3..6 *)
 Definition nv_B : Z := 0x1d00ffff.
